@@ -11,7 +11,7 @@ WEIGHTS = dict(EditEntry=2, Group=6, Ungroup=3, Sort=5, Permute=4, Reverse=2, Re
 def run(tier, seed):
     rng = random.Random(seed * 217645177 + 15)
     mcs = [core.mc("MC_Acl", "MC_Acl" if tier == "quick" else "MC_Acl_4")]
-    n = 1800 if tier == "quick" else 50000
+    n = 1800 if tier == "quick" else 15000
     jobs = [aclhist.make_history(rng, t, WEIGHTS, nops=rng.randint(2, 9)) for t in range(1, n + 1)]
     aclhist.fill_permutations(rng, jobs)
     tjobs, gen = aclhist.tlc_histories(tier, seed, len(jobs) + 1, want={"Group", "Ungroup", "Reverse"}, cap=1500 if tier == "quick" else 20000)
